@@ -615,6 +615,67 @@ def r13(ctx, rep):
     rep.borrowed(C02.r7, ctx, "C08.R13", "comparisons of literals are folded only between literals of the same kind", only=r"same-kind")
 
 
+def r15(ctx, rep):
+    """`"a\\b"` and `r"a\b"` are two spellings of one string value. Whatever `translate_literal` does with the payload on its way into the
+    statement, it does the same for both literal kinds."""
+    rep.rule("C08.R15", "translate_literal treats Literal::String and Literal::RawString alike (one value, two spellings)", floor=1)
+    syn = ctx.syn
+    f = syn.fn("gen_expr::translate_literal", crate="prqlc")
+    leafs = {}
+    for m in matches_of(f["body"]):
+        for a in m["arms"]:
+            for alt in pat_alts(a["pat"]):
+                h = pat_head(alt)
+                if isinstance(h, str) and last_seg(h) in ("String", "RawString") and "Literal" in h:
+                    names = [x["n"] for x in walk(alt) if x.get("k") == "p_ident"]
+                    body = a["body"]
+                    t = show_stmts(body, maxdepth=14) if body.get("k") == "block" else show(body, maxdepth=14)
+                    if names:
+                        t = re.sub(r"\b" + re.escape(names[0]) + r"\b", "<payload>", t)
+                    leafs[last_seg(h)] = (t, a["l"], a.get("guard") is not None)
+    ok = set(leafs) == {"String", "RawString"} and leafs["String"][0] == leafs["RawString"][0] and not leafs["String"][2] and not leafs["RawString"][2]
+    rep.check(ok, "string-kinds-agree", "translate_literal gives a string and a raw string of the same value different treatments: "
+              f"String -> `{leafs.get('String', ('missing',))[0][:120]}`, RawString -> `{leafs.get('RawString', ('missing',))[0][:120]}`",
+              file=f["file"], line=f["l"], fn=f["path"])
+
+
+def r16(ctx, rep):
+    """Whether a backslash starts an escape depends on the kind of string (the `escaping` flag: not in r-strings) - never on how many quote
+    characters delimit it: `"a\tb"` and `\"\"\"a\tb\"\"\"` are the same value."""
+    from guards import conjuncts, parents
+    rep.rule("C08.R16", "in multi_quoted_string the escape branch is taken on `escaping` and the backslash alone, not on the delimiter length", floor=1)
+    syn = ctx.syn
+    f = syn.fn("lexer::multi_quoted_string", crate="prqlc_parser")
+    par = parents(f["body"])
+    n_sites = 0
+    params = [x["n"] for p_ in f["params"] for x in walk(p_) if x.get("k") == "p_ident"]
+    for c in walk(f["body"]):
+        if not (c.get("k") == "call" and last_seg(show(c["f"])) == "parse_escape_sequence"):
+            continue
+        n_sites += 1
+        # the conditions this call is under, up to the `match input.next()` that yields the character
+        cur, conds = c, []
+        while id(cur) in par:
+            p_ = par[id(cur)]
+            if p_.get("k") == "if" and p_.get("t") is not None and any(x is cur for x in walk(p_["t"])) and p_["c"].get("k") != "let":
+                conds += conjuncts(p_["c"])
+            if p_.get("k") == "if" and p_.get("e") is not None and any(x is cur for x in walk(p_["e"])):
+                conds.append({"k": "else-of", "c": p_["c"]})
+            cur = p_
+        bad = []
+        for cj in conds:
+            t = show(cj["c"] if cj.get("k") == "else-of" else cj, maxdepth=8)
+            mentioned = {x["p"] for x in walk(cj) if x.get("k") == "path"}
+            counts = {m_ for m_ in mentioned if re.search(r"count|len|open|close|delim", m_)}
+            if cj.get("k") == "else-of" or counts or (mentioned & set(params)) - {"escaping"}:
+                if cj.get("k") == "else-of" and not (mentioned & (set(params) - {"escaping"})) and not counts:
+                    continue
+                bad.append(t)
+        rep.check(not bad, f"escape-condition:{n_sites}", f"multi_quoted_string decodes an escape sequence only under {bad}: a condition on the delimiter (its length, the quote count) makes the same text "
+                  "between one pair and three pairs of quotes two different values", file=f["file"], line=c["l"], fn=f["path"])
+    rep.check(n_sites >= 1, "escape-site", f"expected the call of parse_escape_sequence in multi_quoted_string, found {n_sites}", file=f["file"], line=f["l"], fn=f["path"])
+
+
 def run(ctx, rep):
-    for r in (r1, r2, r3, r4, r5, r6, r7, r8, r9, r10, r11, r12, r13, r14):
+    for r in (r1, r2, r3, r4, r5, r6, r7, r8, r9, r10, r11, r12, r13, r14, r15, r16):
         rep.guard(r, ctx)
